@@ -229,10 +229,35 @@ def _dedup(tuples):
     return res
 
 
+def part_d(c: Check):
+    """'a query attributed to a profile produces a billing record' past the recorder: the record must still be there when
+    an upload fails and is merged back (the stepper and the trace specification of C16, two overlapping refreshes)."""
+    th = c.thorough
+    behs = c.tlc_sim("BillStat", "BillStat_sim.cfg", num=150 if th else 40, depth=32 if th else 28)
+    inp = os.path.join(c.scratch, "c15_bill_behs.json")
+    json.dump([[{"a": s["a"], "d": s["d"], "r": s["r"]} for s in b] for b in behs], open(inp, "w"))
+    out, _ = c.go_harness("internal/billstat", "^TestVerifC16Stepper$", files=["c16_test.go"],
+                          env={"VERIF_IN": inp, "VERIF_NRANDOM": 1500 if th else 200, "VERIF_NREF": 2})
+    ev = read_ndjson(out)
+    nfail = sum(1 for e in ev if e["ev"] == "UploadFail")
+    if nfail < 20:
+        raise Undecided("billing leg vacuous: %d failed uploads" % nfail)
+    c.cov["traces_validated_against_impl"] += sum(1 for e in ev if e["ev"] == "Reset")
+    for seg, idx, reason in c.validate_segments("TraceBillStat", "TraceBillStat.cfg", ev):
+        e = seg[idx]
+        acts = [(x["ev"], x.get("d", ""), x.get("r", "")) for x in seg[1:idx + 1]]
+        c.violation({"kind": "billing-record-lost", "last": e.get("ev"), "reason": reason.split()[0]},
+                    "C15 billing records after a failed upload: trace rejected (%s) at %s; actions so far: %s; observed %s" % (
+                        reason, e.get("ev"), acts[-12:], json.dumps(e)[:400]),
+                    {"segment": seg, "offending_index": idx, "reason": reason})
+    return len(ev)
+
+
 def run(c: Check):
     nreq, nlogged = part_a(c)
     nwrites, nlines = part_b(c)
     nstack = part_c(c)
+    part_d(c)
     c.cov["rule"] = (
         "part A: a case is one DNS request through ratelimitmw -> mainmw -> real querylog.FileSystem (%d requests, "
         "%d logged); distinct by (attribution, flags, fate and its kind, filter outcome, protocol, location, qtype, "
